@@ -68,6 +68,10 @@ let run (f : string list) : string =
            let d = diff sch o a b in
            add (pr_d d);
            add (pr_f (bind d (fun d -> apply sch d a)))) [true; false];
+         (* the conjectured law without the defaults option, evaluated on the model: explicit nodes agree *)
+         add (match bind (diff sch false a b) (fun d -> apply sch d a) with
+              | Ok r -> if forest_eqb (strip_dflt r) (strip_dflt b) then "nd=1" else "nd=0"
+              | Err _ -> "nd=E");
          let d = diff sch true a b in
          let r = bind d (fun d -> reverse sch d) in
          add (pr_d r);
